@@ -429,23 +429,20 @@ def batch_grid(v=(1, 2)):
 
 
 def internal_error_histories():
-    """The stored General-Failure triggers of C13 with their secret fields made canaries: once on
-    the bare store, once after the set-up with a password credential on the request."""
+    """The stored General-Failure triggers of C13 (known/C13-*.json, whether still open or fixed in
+    the repo meanwhile) with their secret fields made canaries: once on the bare store, once after
+    the set-up with a password credential on the request."""
     out = []
-    path = os.path.join(core.HOME, "known_findings.json")
-    try:
-        with open(path) as f:
-            ents = [e for e in json.load(f).get("findings", [])
-                    if e.get("property") == "C13" and e.get("status", "known") == "known"]
-    except Exception:
-        ents = []
-    for e in ents:
+    import glob
+    for path in sorted(glob.glob(os.path.join(core.HOME, "known", "C13-*.json"))):
         try:
-            data = core.load_replay(e["replay"])
+            data = core.load_replay(path)
         except Exception:
             continue
         spec = data["spec"] if isinstance(data, dict) and "spec" in data else data
-        name = os.path.basename(e["replay"]).replace(".json", "")
+        if not isinstance(spec, dict) or not spec.get("reqs"):
+            continue
+        name = os.path.basename(path).replace(".json", "")
         for variant in ("bare", "setup+cred"):
             ctr = Ctr("k")
             steps = []
@@ -891,6 +888,8 @@ def run(ctx):
                               [(max(1, ns // n), max(1, nc // n), core.derive_seed(ctx.seed, "c20", i))
                                for i in range(n)])
     col = core.merged(PID, dicts)
+    # histories are long: keep the three shortest real non-trivial samples in the evidence
+    col.samples = sorted(col.samples, key=lambda cs: len(core.canon(cs[1])))[:3]
     col.extra["grid_histories"] = len(grid_histories(ctx.tier))
     col.extra["client_grid_histories"] = len(client_histories(ctx.tier))
     return col
